@@ -62,7 +62,7 @@ def run(run):
     cb_from = prog.method("from", r"cell_buffer::CellBuffer$", r"From<.*StringBuffer>")
     if cb_from:
         # a per-row helper the conversion was split into (`insert_row(y, chars)`) is spliced back
-        prog.inline_single_use_helpers(cb_from, same_file=True, skip=r"::(escape_line|add_css_styles|insert)$")
+        prog.inline_single_use_helpers(cb_from, same_file=True, skip=r"::(escape_line|add_css_styles|insert)$", skip_ret=r"^bool$")
     if not cb_from:
         run.missing("C17.W1", "From<StringBuffer> for CellBuffer")
     else:
